@@ -112,7 +112,7 @@ def gen_cases(ctx, quick):
             cases.append(("json", b[:i], None))
             cases.append(("jsont", b[:i], None))
     # mutations
-    nm = 6000 if quick else 150000
+    nm = 20000 if quick else 150000
     for _ in range(nm):
         r = rng.random()
         if r < 0.55:
